@@ -17,9 +17,9 @@ if ! go build ./... 2>/tmp/confirm-build.log; then echo "DOES NOT BUILD"; cat /t
 SUITE=$(go test -vet=off -count=1 ./... 2>&1 | grep -v "^ok\|no test files" | head -5)
 if [ -n "$SUITE" ]; then echo "SUITE FAILS WITH CHANGE: $SUITE"; exit 5; fi
 cp $DEMO $DIR/zz_seed_demo_test.go
-WITH=$(go test -vet=off -count=1 -run 'Seed|seed|Demo|demo' ./$DIR 2>&1 | tail -3)
+WITH=$(go test ${RACE:+-race} -vet=off -count=1 -run 'Seed|seed|Demo|demo' ./$DIR 2>&1 | tail -3)
 git checkout -- . 
-WITHOUT=$(go test -vet=off -count=1 -run 'Seed|seed|Demo|demo' ./$DIR 2>&1 | tail -3)
+WITHOUT=$(go test ${RACE:+-race} -vet=off -count=1 -run 'Seed|seed|Demo|demo' ./$DIR 2>&1 | tail -3)
 rm -f $DIR/zz_seed_demo_test.go
 echo "with change:    $(echo "$WITH" | tr '\n' ' ' | cut -c1-200)"
 echo "without change: $(echo "$WITHOUT" | tr '\n' ' ' | cut -c1-200)"
